@@ -978,7 +978,9 @@ Record go_requestf_ResponsePacket := { go_requestf_ResponsePacket_IVersion : Z;
   go_requestf_ResponsePacket_IMessageType : Z;
   go_requestf_ResponsePacket_IRet : Z;
   go_requestf_ResponsePacket_SBuffer : (list Z);
-  go_requestf_ResponsePacket_SResultDesc : (list N) }.
+  go_requestf_ResponsePacket_Status : (list ((list N) * (list N)));
+  go_requestf_ResponsePacket_SResultDesc : (list N);
+  go_requestf_ResponsePacket_Context : (list ((list N) * (list N))) }.
 
 (* tars/tarsprotocol.go: func Protocol.Invoke, statements "rspPackage := requestf.ResponsePacket{}" .. "rspPackage := requestf.ResponsePacket{}" *)
 Definition tr_Invoke_rsp_init  : ctl go_requestf_ResponsePacket (list N) :=
@@ -989,7 +991,9 @@ Definition tr_Invoke_rsp_init  : ctl go_requestf_ResponsePacket (list N) :=
       go_requestf_ResponsePacket_IMessageType := 0;
       go_requestf_ResponsePacket_IRet := 0;
       go_requestf_ResponsePacket_SBuffer := (@nil Z);
-      go_requestf_ResponsePacket_SResultDesc := (@nil N) |} in
+      go_requestf_ResponsePacket_Status := (@nil ((list N) * (list N)));
+      go_requestf_ResponsePacket_SResultDesc := (@nil N);
+      go_requestf_ResponsePacket_Context := (@nil ((list N) * (list N))) |} in
     Next rspPackage.
 
 (* tars/tarsprotocol.go: func Protocol.InvokeTimeout, statements "^" .. "rspPackage := requestf.ResponsePacket{}" *)
@@ -1001,7 +1005,9 @@ Definition tr_InvokeTimeout_rsp_init  : ctl go_requestf_ResponsePacket (list N) 
       go_requestf_ResponsePacket_IMessageType := 0;
       go_requestf_ResponsePacket_IRet := 0;
       go_requestf_ResponsePacket_SBuffer := (@nil Z);
-      go_requestf_ResponsePacket_SResultDesc := (@nil N) |} in
+      go_requestf_ResponsePacket_Status := (@nil ((list N) * (list N)));
+      go_requestf_ResponsePacket_SResultDesc := (@nil N);
+      go_requestf_ResponsePacket_Context := (@nil ((list N) * (list N))) |} in
     Next rspPackage.
 
 (* struct github.com/TarsCloud/TarsGo/tars/protocol/res/requestf.RequestPacket *)
@@ -1012,28 +1018,30 @@ Record go_requestf_RequestPacket := { go_requestf_RequestPacket_IVersion : Z;
   go_requestf_RequestPacket_SServantName : (list N);
   go_requestf_RequestPacket_SFuncName : (list N);
   go_requestf_RequestPacket_SBuffer : (list Z);
-  go_requestf_RequestPacket_ITimeout : Z }.
+  go_requestf_RequestPacket_ITimeout : Z;
+  go_requestf_RequestPacket_Context : (list ((list N) * (list N)));
+  go_requestf_RequestPacket_Status : (list ((list N) * (list N))) }.
 
 (* tars/tarsprotocol.go: func Protocol.Invoke, statements "rspPackage.IVersion = reqPackage.IVersion" .. "rspPackage.IRequestId = reqPackage.IRequestId" *)
 Definition tr_Invoke_identity (reqPackage : go_requestf_RequestPacket) (rspPackage : go_requestf_ResponsePacket) : ctl go_requestf_ResponsePacket (list N) :=
-  let rspPackage := {| go_requestf_ResponsePacket_IVersion := (go_requestf_RequestPacket_IVersion reqPackage); go_requestf_ResponsePacket_CPacketType := go_requestf_ResponsePacket_CPacketType rspPackage; go_requestf_ResponsePacket_IRequestId := go_requestf_ResponsePacket_IRequestId rspPackage; go_requestf_ResponsePacket_IMessageType := go_requestf_ResponsePacket_IMessageType rspPackage; go_requestf_ResponsePacket_IRet := go_requestf_ResponsePacket_IRet rspPackage; go_requestf_ResponsePacket_SBuffer := go_requestf_ResponsePacket_SBuffer rspPackage; go_requestf_ResponsePacket_SResultDesc := go_requestf_ResponsePacket_SResultDesc rspPackage |} in
-    let rspPackage := {| go_requestf_ResponsePacket_IVersion := go_requestf_ResponsePacket_IVersion rspPackage; go_requestf_ResponsePacket_CPacketType := go_requestf_ResponsePacket_CPacketType rspPackage; go_requestf_ResponsePacket_IRequestId := (go_requestf_RequestPacket_IRequestId reqPackage); go_requestf_ResponsePacket_IMessageType := go_requestf_ResponsePacket_IMessageType rspPackage; go_requestf_ResponsePacket_IRet := go_requestf_ResponsePacket_IRet rspPackage; go_requestf_ResponsePacket_SBuffer := go_requestf_ResponsePacket_SBuffer rspPackage; go_requestf_ResponsePacket_SResultDesc := go_requestf_ResponsePacket_SResultDesc rspPackage |} in
+  let rspPackage := {| go_requestf_ResponsePacket_IVersion := (go_requestf_RequestPacket_IVersion reqPackage); go_requestf_ResponsePacket_CPacketType := go_requestf_ResponsePacket_CPacketType rspPackage; go_requestf_ResponsePacket_IRequestId := go_requestf_ResponsePacket_IRequestId rspPackage; go_requestf_ResponsePacket_IMessageType := go_requestf_ResponsePacket_IMessageType rspPackage; go_requestf_ResponsePacket_IRet := go_requestf_ResponsePacket_IRet rspPackage; go_requestf_ResponsePacket_SBuffer := go_requestf_ResponsePacket_SBuffer rspPackage; go_requestf_ResponsePacket_Status := go_requestf_ResponsePacket_Status rspPackage; go_requestf_ResponsePacket_SResultDesc := go_requestf_ResponsePacket_SResultDesc rspPackage; go_requestf_ResponsePacket_Context := go_requestf_ResponsePacket_Context rspPackage |} in
+    let rspPackage := {| go_requestf_ResponsePacket_IVersion := go_requestf_ResponsePacket_IVersion rspPackage; go_requestf_ResponsePacket_CPacketType := go_requestf_ResponsePacket_CPacketType rspPackage; go_requestf_ResponsePacket_IRequestId := (go_requestf_RequestPacket_IRequestId reqPackage); go_requestf_ResponsePacket_IMessageType := go_requestf_ResponsePacket_IMessageType rspPackage; go_requestf_ResponsePacket_IRet := go_requestf_ResponsePacket_IRet rspPackage; go_requestf_ResponsePacket_SBuffer := go_requestf_ResponsePacket_SBuffer rspPackage; go_requestf_ResponsePacket_Status := go_requestf_ResponsePacket_Status rspPackage; go_requestf_ResponsePacket_SResultDesc := go_requestf_ResponsePacket_SResultDesc rspPackage; go_requestf_ResponsePacket_Context := go_requestf_ResponsePacket_Context rspPackage |} in
     Next rspPackage.
 
 Definition k_basef_TARSSERVERQUEUETIMEOUT : Z := (-6).
 (* tars/tarsprotocol.go: func Protocol.Invoke, statements "rspPackage.IRet = basef.TARSSERVERQUEUETIMEOUT" .. "rspPackage.SResultDesc = \"server invoke timeout\"" *)
 Definition tr_Invoke_queue_timeout (rspPackage : go_requestf_ResponsePacket) : ctl go_requestf_ResponsePacket (list N) :=
-  let rspPackage := {| go_requestf_ResponsePacket_IVersion := go_requestf_ResponsePacket_IVersion rspPackage; go_requestf_ResponsePacket_CPacketType := go_requestf_ResponsePacket_CPacketType rspPackage; go_requestf_ResponsePacket_IRequestId := go_requestf_ResponsePacket_IRequestId rspPackage; go_requestf_ResponsePacket_IMessageType := go_requestf_ResponsePacket_IMessageType rspPackage; go_requestf_ResponsePacket_IRet := k_basef_TARSSERVERQUEUETIMEOUT; go_requestf_ResponsePacket_SBuffer := go_requestf_ResponsePacket_SBuffer rspPackage; go_requestf_ResponsePacket_SResultDesc := go_requestf_ResponsePacket_SResultDesc rspPackage |} in
-    let rspPackage := {| go_requestf_ResponsePacket_IVersion := go_requestf_ResponsePacket_IVersion rspPackage; go_requestf_ResponsePacket_CPacketType := go_requestf_ResponsePacket_CPacketType rspPackage; go_requestf_ResponsePacket_IRequestId := go_requestf_ResponsePacket_IRequestId rspPackage; go_requestf_ResponsePacket_IMessageType := go_requestf_ResponsePacket_IMessageType rspPackage; go_requestf_ResponsePacket_IRet := go_requestf_ResponsePacket_IRet rspPackage; go_requestf_ResponsePacket_SBuffer := go_requestf_ResponsePacket_SBuffer rspPackage; go_requestf_ResponsePacket_SResultDesc := (115%N :: (101%N :: (114%N :: (118%N :: (101%N :: (114%N :: (32%N :: (105%N :: (110%N :: (118%N :: (111%N :: (107%N :: (101%N :: (32%N :: (116%N :: (105%N :: (109%N :: (101%N :: (111%N :: (117%N :: (116%N :: (@nil N)))))))))))))))))))))) |} in
+  let rspPackage := {| go_requestf_ResponsePacket_IVersion := go_requestf_ResponsePacket_IVersion rspPackage; go_requestf_ResponsePacket_CPacketType := go_requestf_ResponsePacket_CPacketType rspPackage; go_requestf_ResponsePacket_IRequestId := go_requestf_ResponsePacket_IRequestId rspPackage; go_requestf_ResponsePacket_IMessageType := go_requestf_ResponsePacket_IMessageType rspPackage; go_requestf_ResponsePacket_IRet := k_basef_TARSSERVERQUEUETIMEOUT; go_requestf_ResponsePacket_SBuffer := go_requestf_ResponsePacket_SBuffer rspPackage; go_requestf_ResponsePacket_Status := go_requestf_ResponsePacket_Status rspPackage; go_requestf_ResponsePacket_SResultDesc := go_requestf_ResponsePacket_SResultDesc rspPackage; go_requestf_ResponsePacket_Context := go_requestf_ResponsePacket_Context rspPackage |} in
+    let rspPackage := {| go_requestf_ResponsePacket_IVersion := go_requestf_ResponsePacket_IVersion rspPackage; go_requestf_ResponsePacket_CPacketType := go_requestf_ResponsePacket_CPacketType rspPackage; go_requestf_ResponsePacket_IRequestId := go_requestf_ResponsePacket_IRequestId rspPackage; go_requestf_ResponsePacket_IMessageType := go_requestf_ResponsePacket_IMessageType rspPackage; go_requestf_ResponsePacket_IRet := go_requestf_ResponsePacket_IRet rspPackage; go_requestf_ResponsePacket_SBuffer := go_requestf_ResponsePacket_SBuffer rspPackage; go_requestf_ResponsePacket_Status := go_requestf_ResponsePacket_Status rspPackage; go_requestf_ResponsePacket_SResultDesc := (115%N :: (101%N :: (114%N :: (118%N :: (101%N :: (114%N :: (32%N :: (105%N :: (110%N :: (118%N :: (111%N :: (107%N :: (101%N :: (32%N :: (116%N :: (105%N :: (109%N :: (101%N :: (111%N :: (117%N :: (116%N :: (@nil N)))))))))))))))))))))); go_requestf_ResponsePacket_Context := go_requestf_ResponsePacket_Context rspPackage |} in
     Next rspPackage.
 
 (* tars/tarsprotocol.go: func Protocol.Invoke, statements "rspPackage.IRet = 1" .. "if tarsErr, ok := err.(*Error); ok {" *)
 Definition tr_Invoke_error (rspPackage : go_requestf_ResponsePacket) (err_is_tars : bool) (err_text : list N) (err_code : Z) : ctl go_requestf_ResponsePacket (list N) :=
-  let rspPackage := {| go_requestf_ResponsePacket_IVersion := go_requestf_ResponsePacket_IVersion rspPackage; go_requestf_ResponsePacket_CPacketType := go_requestf_ResponsePacket_CPacketType rspPackage; go_requestf_ResponsePacket_IRequestId := go_requestf_ResponsePacket_IRequestId rspPackage; go_requestf_ResponsePacket_IMessageType := go_requestf_ResponsePacket_IMessageType rspPackage; go_requestf_ResponsePacket_IRet := 1; go_requestf_ResponsePacket_SBuffer := go_requestf_ResponsePacket_SBuffer rspPackage; go_requestf_ResponsePacket_SResultDesc := go_requestf_ResponsePacket_SResultDesc rspPackage |} in
-    let rspPackage := {| go_requestf_ResponsePacket_IVersion := go_requestf_ResponsePacket_IVersion rspPackage; go_requestf_ResponsePacket_CPacketType := go_requestf_ResponsePacket_CPacketType rspPackage; go_requestf_ResponsePacket_IRequestId := go_requestf_ResponsePacket_IRequestId rspPackage; go_requestf_ResponsePacket_IMessageType := go_requestf_ResponsePacket_IMessageType rspPackage; go_requestf_ResponsePacket_IRet := go_requestf_ResponsePacket_IRet rspPackage; go_requestf_ResponsePacket_SBuffer := go_requestf_ResponsePacket_SBuffer rspPackage; go_requestf_ResponsePacket_SResultDesc := err_text |} in
+  let rspPackage := {| go_requestf_ResponsePacket_IVersion := go_requestf_ResponsePacket_IVersion rspPackage; go_requestf_ResponsePacket_CPacketType := go_requestf_ResponsePacket_CPacketType rspPackage; go_requestf_ResponsePacket_IRequestId := go_requestf_ResponsePacket_IRequestId rspPackage; go_requestf_ResponsePacket_IMessageType := go_requestf_ResponsePacket_IMessageType rspPackage; go_requestf_ResponsePacket_IRet := 1; go_requestf_ResponsePacket_SBuffer := go_requestf_ResponsePacket_SBuffer rspPackage; go_requestf_ResponsePacket_Status := go_requestf_ResponsePacket_Status rspPackage; go_requestf_ResponsePacket_SResultDesc := go_requestf_ResponsePacket_SResultDesc rspPackage; go_requestf_ResponsePacket_Context := go_requestf_ResponsePacket_Context rspPackage |} in
+    let rspPackage := {| go_requestf_ResponsePacket_IVersion := go_requestf_ResponsePacket_IVersion rspPackage; go_requestf_ResponsePacket_CPacketType := go_requestf_ResponsePacket_CPacketType rspPackage; go_requestf_ResponsePacket_IRequestId := go_requestf_ResponsePacket_IRequestId rspPackage; go_requestf_ResponsePacket_IMessageType := go_requestf_ResponsePacket_IMessageType rspPackage; go_requestf_ResponsePacket_IRet := go_requestf_ResponsePacket_IRet rspPackage; go_requestf_ResponsePacket_SBuffer := go_requestf_ResponsePacket_SBuffer rspPackage; go_requestf_ResponsePacket_Status := go_requestf_ResponsePacket_Status rspPackage; go_requestf_ResponsePacket_SResultDesc := err_text; go_requestf_ResponsePacket_Context := go_requestf_ResponsePacket_Context rspPackage |} in
     let ok := err_is_tars in
     bindc (if ok
-      then let rspPackage := {| go_requestf_ResponsePacket_IVersion := go_requestf_ResponsePacket_IVersion rspPackage; go_requestf_ResponsePacket_CPacketType := go_requestf_ResponsePacket_CPacketType rspPackage; go_requestf_ResponsePacket_IRequestId := go_requestf_ResponsePacket_IRequestId rspPackage; go_requestf_ResponsePacket_IMessageType := go_requestf_ResponsePacket_IMessageType rspPackage; go_requestf_ResponsePacket_IRet := err_code; go_requestf_ResponsePacket_SBuffer := go_requestf_ResponsePacket_SBuffer rspPackage; go_requestf_ResponsePacket_SResultDesc := go_requestf_ResponsePacket_SResultDesc rspPackage |} in
+      then let rspPackage := {| go_requestf_ResponsePacket_IVersion := go_requestf_ResponsePacket_IVersion rspPackage; go_requestf_ResponsePacket_CPacketType := go_requestf_ResponsePacket_CPacketType rspPackage; go_requestf_ResponsePacket_IRequestId := go_requestf_ResponsePacket_IRequestId rspPackage; go_requestf_ResponsePacket_IMessageType := go_requestf_ResponsePacket_IMessageType rspPackage; go_requestf_ResponsePacket_IRet := err_code; go_requestf_ResponsePacket_SBuffer := go_requestf_ResponsePacket_SBuffer rspPackage; go_requestf_ResponsePacket_Status := go_requestf_ResponsePacket_Status rspPackage; go_requestf_ResponsePacket_SResultDesc := go_requestf_ResponsePacket_SResultDesc rspPackage; go_requestf_ResponsePacket_Context := go_requestf_ResponsePacket_Context rspPackage |} in
         Next rspPackage
       else Next rspPackage)
     (fun rspPackage : go_requestf_ResponsePacket =>
@@ -1041,7 +1049,7 @@ Definition tr_Invoke_error (rspPackage : go_requestf_ResponsePacket) (err_is_tar
 
 (* tars/tarsprotocol.go: func Protocol.Invoke, statements "rspPackage.CPacketType = reqPackage.CPacketType" .. "rspPackage.CPacketType = reqPackage.CPacketType" *)
 Definition tr_Invoke_ptype (reqPackage : go_requestf_RequestPacket) (rspPackage : go_requestf_ResponsePacket) : ctl go_requestf_ResponsePacket (list N) :=
-  let rspPackage := {| go_requestf_ResponsePacket_IVersion := go_requestf_ResponsePacket_IVersion rspPackage; go_requestf_ResponsePacket_CPacketType := (go_requestf_RequestPacket_CPacketType reqPackage); go_requestf_ResponsePacket_IRequestId := go_requestf_ResponsePacket_IRequestId rspPackage; go_requestf_ResponsePacket_IMessageType := go_requestf_ResponsePacket_IMessageType rspPackage; go_requestf_ResponsePacket_IRet := go_requestf_ResponsePacket_IRet rspPackage; go_requestf_ResponsePacket_SBuffer := go_requestf_ResponsePacket_SBuffer rspPackage; go_requestf_ResponsePacket_SResultDesc := go_requestf_ResponsePacket_SResultDesc rspPackage |} in
+  let rspPackage := {| go_requestf_ResponsePacket_IVersion := go_requestf_ResponsePacket_IVersion rspPackage; go_requestf_ResponsePacket_CPacketType := (go_requestf_RequestPacket_CPacketType reqPackage); go_requestf_ResponsePacket_IRequestId := go_requestf_ResponsePacket_IRequestId rspPackage; go_requestf_ResponsePacket_IMessageType := go_requestf_ResponsePacket_IMessageType rspPackage; go_requestf_ResponsePacket_IRet := go_requestf_ResponsePacket_IRet rspPackage; go_requestf_ResponsePacket_SBuffer := go_requestf_ResponsePacket_SBuffer rspPackage; go_requestf_ResponsePacket_Status := go_requestf_ResponsePacket_Status rspPackage; go_requestf_ResponsePacket_SResultDesc := go_requestf_ResponsePacket_SResultDesc rspPackage; go_requestf_ResponsePacket_Context := go_requestf_ResponsePacket_Context rspPackage |} in
     Next rspPackage.
 
 Definition k_basef_TARSONEWAY : Z := 1.
@@ -1049,11 +1057,11 @@ Definition k_basef_TARSONEWAY : Z := 1.
 Definition tr_InvokeTimeout_fill (rspPackage : go_requestf_ResponsePacket) (reqPackage : go_requestf_RequestPacket) : ctl go_requestf_ResponsePacket (list N) :=
   if ((go_requestf_RequestPacket_CPacketType reqPackage) =? k_basef_TARSONEWAY)
     then Return (@nil N)
-    else let rspPackage := {| go_requestf_ResponsePacket_IVersion := (go_requestf_RequestPacket_IVersion reqPackage); go_requestf_ResponsePacket_CPacketType := go_requestf_ResponsePacket_CPacketType rspPackage; go_requestf_ResponsePacket_IRequestId := go_requestf_ResponsePacket_IRequestId rspPackage; go_requestf_ResponsePacket_IMessageType := go_requestf_ResponsePacket_IMessageType rspPackage; go_requestf_ResponsePacket_IRet := go_requestf_ResponsePacket_IRet rspPackage; go_requestf_ResponsePacket_SBuffer := go_requestf_ResponsePacket_SBuffer rspPackage; go_requestf_ResponsePacket_SResultDesc := go_requestf_ResponsePacket_SResultDesc rspPackage |} in
-    let rspPackage := {| go_requestf_ResponsePacket_IVersion := go_requestf_ResponsePacket_IVersion rspPackage; go_requestf_ResponsePacket_CPacketType := (go_requestf_RequestPacket_CPacketType reqPackage); go_requestf_ResponsePacket_IRequestId := go_requestf_ResponsePacket_IRequestId rspPackage; go_requestf_ResponsePacket_IMessageType := go_requestf_ResponsePacket_IMessageType rspPackage; go_requestf_ResponsePacket_IRet := go_requestf_ResponsePacket_IRet rspPackage; go_requestf_ResponsePacket_SBuffer := go_requestf_ResponsePacket_SBuffer rspPackage; go_requestf_ResponsePacket_SResultDesc := go_requestf_ResponsePacket_SResultDesc rspPackage |} in
-    let rspPackage := {| go_requestf_ResponsePacket_IVersion := go_requestf_ResponsePacket_IVersion rspPackage; go_requestf_ResponsePacket_CPacketType := go_requestf_ResponsePacket_CPacketType rspPackage; go_requestf_ResponsePacket_IRequestId := (go_requestf_RequestPacket_IRequestId reqPackage); go_requestf_ResponsePacket_IMessageType := go_requestf_ResponsePacket_IMessageType rspPackage; go_requestf_ResponsePacket_IRet := go_requestf_ResponsePacket_IRet rspPackage; go_requestf_ResponsePacket_SBuffer := go_requestf_ResponsePacket_SBuffer rspPackage; go_requestf_ResponsePacket_SResultDesc := go_requestf_ResponsePacket_SResultDesc rspPackage |} in
-    let rspPackage := {| go_requestf_ResponsePacket_IVersion := go_requestf_ResponsePacket_IVersion rspPackage; go_requestf_ResponsePacket_CPacketType := go_requestf_ResponsePacket_CPacketType rspPackage; go_requestf_ResponsePacket_IRequestId := go_requestf_ResponsePacket_IRequestId rspPackage; go_requestf_ResponsePacket_IMessageType := go_requestf_ResponsePacket_IMessageType rspPackage; go_requestf_ResponsePacket_IRet := 1; go_requestf_ResponsePacket_SBuffer := go_requestf_ResponsePacket_SBuffer rspPackage; go_requestf_ResponsePacket_SResultDesc := go_requestf_ResponsePacket_SResultDesc rspPackage |} in
-    let rspPackage := {| go_requestf_ResponsePacket_IVersion := go_requestf_ResponsePacket_IVersion rspPackage; go_requestf_ResponsePacket_CPacketType := go_requestf_ResponsePacket_CPacketType rspPackage; go_requestf_ResponsePacket_IRequestId := go_requestf_ResponsePacket_IRequestId rspPackage; go_requestf_ResponsePacket_IMessageType := go_requestf_ResponsePacket_IMessageType rspPackage; go_requestf_ResponsePacket_IRet := go_requestf_ResponsePacket_IRet rspPackage; go_requestf_ResponsePacket_SBuffer := go_requestf_ResponsePacket_SBuffer rspPackage; go_requestf_ResponsePacket_SResultDesc := (115%N :: (101%N :: (114%N :: (118%N :: (101%N :: (114%N :: (32%N :: (105%N :: (110%N :: (118%N :: (111%N :: (107%N :: (101%N :: (32%N :: (116%N :: (105%N :: (109%N :: (101%N :: (111%N :: (117%N :: (116%N :: (@nil N)))))))))))))))))))))) |} in
+    else let rspPackage := {| go_requestf_ResponsePacket_IVersion := (go_requestf_RequestPacket_IVersion reqPackage); go_requestf_ResponsePacket_CPacketType := go_requestf_ResponsePacket_CPacketType rspPackage; go_requestf_ResponsePacket_IRequestId := go_requestf_ResponsePacket_IRequestId rspPackage; go_requestf_ResponsePacket_IMessageType := go_requestf_ResponsePacket_IMessageType rspPackage; go_requestf_ResponsePacket_IRet := go_requestf_ResponsePacket_IRet rspPackage; go_requestf_ResponsePacket_SBuffer := go_requestf_ResponsePacket_SBuffer rspPackage; go_requestf_ResponsePacket_Status := go_requestf_ResponsePacket_Status rspPackage; go_requestf_ResponsePacket_SResultDesc := go_requestf_ResponsePacket_SResultDesc rspPackage; go_requestf_ResponsePacket_Context := go_requestf_ResponsePacket_Context rspPackage |} in
+    let rspPackage := {| go_requestf_ResponsePacket_IVersion := go_requestf_ResponsePacket_IVersion rspPackage; go_requestf_ResponsePacket_CPacketType := (go_requestf_RequestPacket_CPacketType reqPackage); go_requestf_ResponsePacket_IRequestId := go_requestf_ResponsePacket_IRequestId rspPackage; go_requestf_ResponsePacket_IMessageType := go_requestf_ResponsePacket_IMessageType rspPackage; go_requestf_ResponsePacket_IRet := go_requestf_ResponsePacket_IRet rspPackage; go_requestf_ResponsePacket_SBuffer := go_requestf_ResponsePacket_SBuffer rspPackage; go_requestf_ResponsePacket_Status := go_requestf_ResponsePacket_Status rspPackage; go_requestf_ResponsePacket_SResultDesc := go_requestf_ResponsePacket_SResultDesc rspPackage; go_requestf_ResponsePacket_Context := go_requestf_ResponsePacket_Context rspPackage |} in
+    let rspPackage := {| go_requestf_ResponsePacket_IVersion := go_requestf_ResponsePacket_IVersion rspPackage; go_requestf_ResponsePacket_CPacketType := go_requestf_ResponsePacket_CPacketType rspPackage; go_requestf_ResponsePacket_IRequestId := (go_requestf_RequestPacket_IRequestId reqPackage); go_requestf_ResponsePacket_IMessageType := go_requestf_ResponsePacket_IMessageType rspPackage; go_requestf_ResponsePacket_IRet := go_requestf_ResponsePacket_IRet rspPackage; go_requestf_ResponsePacket_SBuffer := go_requestf_ResponsePacket_SBuffer rspPackage; go_requestf_ResponsePacket_Status := go_requestf_ResponsePacket_Status rspPackage; go_requestf_ResponsePacket_SResultDesc := go_requestf_ResponsePacket_SResultDesc rspPackage; go_requestf_ResponsePacket_Context := go_requestf_ResponsePacket_Context rspPackage |} in
+    let rspPackage := {| go_requestf_ResponsePacket_IVersion := go_requestf_ResponsePacket_IVersion rspPackage; go_requestf_ResponsePacket_CPacketType := go_requestf_ResponsePacket_CPacketType rspPackage; go_requestf_ResponsePacket_IRequestId := go_requestf_ResponsePacket_IRequestId rspPackage; go_requestf_ResponsePacket_IMessageType := go_requestf_ResponsePacket_IMessageType rspPackage; go_requestf_ResponsePacket_IRet := 1; go_requestf_ResponsePacket_SBuffer := go_requestf_ResponsePacket_SBuffer rspPackage; go_requestf_ResponsePacket_Status := go_requestf_ResponsePacket_Status rspPackage; go_requestf_ResponsePacket_SResultDesc := go_requestf_ResponsePacket_SResultDesc rspPackage; go_requestf_ResponsePacket_Context := go_requestf_ResponsePacket_Context rspPackage |} in
+    let rspPackage := {| go_requestf_ResponsePacket_IVersion := go_requestf_ResponsePacket_IVersion rspPackage; go_requestf_ResponsePacket_CPacketType := go_requestf_ResponsePacket_CPacketType rspPackage; go_requestf_ResponsePacket_IRequestId := go_requestf_ResponsePacket_IRequestId rspPackage; go_requestf_ResponsePacket_IMessageType := go_requestf_ResponsePacket_IMessageType rspPackage; go_requestf_ResponsePacket_IRet := go_requestf_ResponsePacket_IRet rspPackage; go_requestf_ResponsePacket_SBuffer := go_requestf_ResponsePacket_SBuffer rspPackage; go_requestf_ResponsePacket_Status := go_requestf_ResponsePacket_Status rspPackage; go_requestf_ResponsePacket_SResultDesc := (115%N :: (101%N :: (114%N :: (118%N :: (101%N :: (114%N :: (32%N :: (105%N :: (110%N :: (118%N :: (111%N :: (107%N :: (101%N :: (32%N :: (116%N :: (105%N :: (109%N :: (101%N :: (111%N :: (117%N :: (116%N :: (@nil N)))))))))))))))))))))); go_requestf_ResponsePacket_Context := go_requestf_ResponsePacket_Context rspPackage |} in
     Next rspPackage.
 
 (* tars/errors.go: func GetErrorCode *)
@@ -1184,6 +1192,104 @@ Definition tr_tup_Decode (fuel : nat) (rd : go_reader) (u_data : (list ((list N)
       Next (rd, u_data, have, ty, err))))))) (rd, u_data, have, ty, err))
     (fun st : go_reader * (list ((list N) * (list N))) * bool * Z * bool => let '(rd, u_data, have, ty, err) := st in
     Return (rd, err, u_data)))))).
+
+(* tars/transport/tcphandler.go: func tcpHandler.recv, statements "if err != nil {" .. "if err != nil {" *)
+Definition tr_srv_recv_event (currBuffer : (list N)) (err : bool) (is_closed : Z) (is_eof : bool) (no_data : bool) (now_ : Z) (idle_timeout : Z) (idle_time : Z) (num_invoke : Z) : ctl (list N) (((list N) + (list N)) + unit) :=
+  if (Bool.eqb err false)
+    then Next currBuffer
+    else if (if (is_closed =? 1) then ((go_len currBuffer) =? 0) else false)
+      then Return (inr tt)
+      else if (if (if ((go_len currBuffer) =? 0) then (num_invoke =? 0) else false) then (negb (1000000000 =? 0)) else true) then (if (if (if ((go_len currBuffer) =? 0) then (num_invoke =? 0) else false) then ((wrapS 64 (idle_time + (wrapS 64 (Z.quot idle_timeout 1000000000)))) <? now_) else false)
+      then Return (inr tt)
+      else bindc (if no_data
+        then Return (inl (inr currBuffer))
+        else Next tt)
+      (fun _ : unit =>
+      bindc (if is_eof
+        then Next tt
+        else Next tt)
+      (fun _ : unit =>
+      Return (inr tt)))) else Panic.
+
+(* tars/transport/tarsclient.go: func connection.recv, statements "if err != nil {" .. "if err != nil {" *)
+Definition tr_cli_recv_event (currBuffer : (list N)) (err : bool) (is_eof : bool) (is_op_error : bool) (no_data : bool) : ctl (list N) (((list N) + (list N)) + unit) :=
+  if (Bool.eqb err false)
+    then Next currBuffer
+    else bindc (if no_data
+        then Return (inl (inr currBuffer))
+        else Next tt)
+      (fun _ : unit =>
+      let ok := is_op_error in
+      if ok
+      then Return (inr tt)
+      else bindc (if is_eof
+        then Next tt
+        else Next tt)
+      (fun _ : unit =>
+      Return (inr tt))).
+
+(* tars/servant.go: func ServantProxy.TarsInvoke, statements "req := requestf.RequestPacket{" .. "req := requestf.RequestPacket{" *)
+Definition tr_TarsInvoke_req (cType : Z) (sFuncName : (list N)) (status : (list ((list N) * (list N)))) (reqContext : (list ((list N) * (list N)))) (msgType : Z) (s_name : (list N)) (s_timeout : Z) (s_version : Z) (gen_request_id : Z) (sbuffer : list Z) : ctl go_requestf_RequestPacket bool :=
+  let req := {|
+      go_requestf_RequestPacket_IVersion := s_version;
+      go_requestf_RequestPacket_CPacketType := (wrapS 8 cType);
+      go_requestf_RequestPacket_IMessageType := msgType;
+      go_requestf_RequestPacket_IRequestId := gen_request_id;
+      go_requestf_RequestPacket_SServantName := s_name;
+      go_requestf_RequestPacket_SFuncName := sFuncName;
+      go_requestf_RequestPacket_SBuffer := sbuffer;
+      go_requestf_RequestPacket_ITimeout := (wrapS 32 s_timeout);
+      go_requestf_RequestPacket_Context := reqContext;
+      go_requestf_RequestPacket_Status := status |} in
+    Next req.
+
+Definition k_time_Millisecond : Z := 1000000.
+(* struct time.Time *)
+Record go_time_Time := { go_time_Time_wall : Z;
+  go_time_Time_ext : Z }.
+
+(* tars/servant.go: func ServantProxy.TarsInvoke, statements "timeout := time.Duration(s.timeout) * time.Millisecond" .. "if dl, ok := ctx.Deadline(); ok {" *)
+Definition tr_TarsInvoke_timeout (req : go_requestf_RequestPacket) (s_timeout : Z) (has_deadline : bool) (until_deadline : Z) (client_timeout : bool * Z * bool) (out : list Z) : ctl ((list Z) * Z * go_requestf_RequestPacket) (list Z * bool) :=
+  let timeout := (wrapS 64 (s_timeout * k_time_Millisecond)) in
+    let '(ok, to, isTimeout) := (client_timeout) in
+    bindc (if (if isTimeout then ok else false)
+      then let timeout := (wrapS 64 (to * k_time_Millisecond)) in
+        let req := {| go_requestf_RequestPacket_IVersion := go_requestf_RequestPacket_IVersion req; go_requestf_RequestPacket_CPacketType := go_requestf_RequestPacket_CPacketType req; go_requestf_RequestPacket_IMessageType := go_requestf_RequestPacket_IMessageType req; go_requestf_RequestPacket_IRequestId := go_requestf_RequestPacket_IRequestId req; go_requestf_RequestPacket_SServantName := go_requestf_RequestPacket_SServantName req; go_requestf_RequestPacket_SFuncName := go_requestf_RequestPacket_SFuncName req; go_requestf_RequestPacket_SBuffer := go_requestf_RequestPacket_SBuffer req; go_requestf_RequestPacket_ITimeout := (wrapS 32 to); go_requestf_RequestPacket_Context := go_requestf_RequestPacket_Context req; go_requestf_RequestPacket_Status := go_requestf_RequestPacket_Status req |} in
+        Next (out, req, timeout)
+      else Next (out, req, timeout))
+    (fun st : (list Z) * go_requestf_RequestPacket * Z => let '(out, req, timeout) := st in
+    let ok_1 := has_deadline in
+    bindc (if ok_1
+      then let timeout := until_deadline in
+        if (negb (k_time_Millisecond =? 0)) then (let req := {| go_requestf_RequestPacket_IVersion := go_requestf_RequestPacket_IVersion req; go_requestf_RequestPacket_CPacketType := go_requestf_RequestPacket_CPacketType req; go_requestf_RequestPacket_IMessageType := go_requestf_RequestPacket_IMessageType req; go_requestf_RequestPacket_IRequestId := go_requestf_RequestPacket_IRequestId req; go_requestf_RequestPacket_SServantName := go_requestf_RequestPacket_SServantName req; go_requestf_RequestPacket_SFuncName := go_requestf_RequestPacket_SFuncName req; go_requestf_RequestPacket_SBuffer := go_requestf_RequestPacket_SBuffer req; go_requestf_RequestPacket_ITimeout := (wrapS 32 (wrapS 64 (Z.quot timeout k_time_Millisecond))); go_requestf_RequestPacket_Context := go_requestf_RequestPacket_Context req; go_requestf_RequestPacket_Status := go_requestf_RequestPacket_Status req |} in
+        Next (out, req, timeout)) else Panic
+      else let out := out ++ (go_arm timeout) in let _ := false in
+        Next (out, req, timeout))
+    (fun st : (list Z) * go_requestf_RequestPacket * Z => let '(out, req, timeout) := st in
+    Next (out, timeout, req))).
+
+(* tars/adapter.go: func AdapterProxy.Recv, statements "if packet.IRequestId == 0 {" .. "if ok {" *)
+Definition tr_adapter_Recv (read_timeout : Z) (found : bool) (pkt_type : Z) (pkt_id : Z) (select_ : Z) (out : list (Z * Z)) : ctl (list (Z * Z)) (list (Z * Z) * unit) :=
+  bindc (if (pkt_id =? 0)
+      then let out := out ++ (go_tag 1 0 ) in let _ := false in
+        Return (out, tt)
+      else Next out)
+    (fun out : (list (Z * Z)) =>
+    bindc (if (pkt_type =? k_basef_TARSONEWAY)
+      then Return (out, tt)
+      else Next out)
+    (fun out : (list (Z * Z)) =>
+    let ok := found in
+    bindc (if ok
+      then let out := out ++ (go_tag 2 0) ++ (go_tag 3 read_timeout) in
+        bindc (if (select_ =? 0)
+          then Next out
+          else Next out)
+        (fun out : (list (Z * Z)) =>
+        Next out)
+      else Next out)
+    (fun out : (list (Z * Z)) =>
+    Next out))).
 
 (* tars/transport/tarsclient.go: func connection.recv, statements "currBuffer = append(currBuffer, buffer[:n]...)" .. "for {" *)
 Definition tr_cli_recv_chunk (fuel : nat) (buffer : (list N)) (currBuffer : (list N)) (n : Z) (parse_package : list N -> Z * Z) (out : list (list N)) : ctl ((list (list N)) * (list N)) (list (list N) * unit) :=
